@@ -53,7 +53,9 @@ var integer32 = []*instructionType{
 		immediate:    immTypeI,
 		// FIXME: Find a way how to represent those jump targets.
 		effects: func(i instruction) []expr.Effect {
-			target := regImmOp(binOpFunc(expr.Add), immTypeI, i, width32)
+			sum := regImmOp(binOpFunc(expr.Add), immTypeI, i, width32)
+			// The least significant bit of the target is always cleared.
+			target := exprtools.BitAnd(sum, expr.NewConstInt(int8(-2), width32), width32)
 			// Address of following instruction.
 			following := expr.ConstFromUint(uint32(i.addr) + 4)
 			return []expr.Effect{
